@@ -167,7 +167,7 @@ def x2_triggers():
     return S_.result()
 
 
-X3_ALPH = ALPH14 + '$|\''
+X3_ALPH = ALPH14 + '$|\'~'
 
 
 def has_code_block(doc):
@@ -183,7 +183,7 @@ def x3_renderers():
     return [(n, c[n]) for n in ('TocRenderer', 'GithubWikiRenderer', 'MathJaxRenderer', 'PygmentsRenderer') if n in c]
 
 
-@lemma('X3.pipeline', 'C18', quick=[{'k': 1, 'sigma': True, 'dq': False, 'html': True}, {'k': 1, 'sigma': True, 'dq': True, 'html': False}] + by('c1', list('$[\''), [{'k': 2, 'sigma': False, 'dq': False, 'html': True}]),
+@lemma('X3.pipeline', 'C18', quick=[{'k': 1, 'sigma': True, 'dq': False, 'html': True}, {'k': 1, 'sigma': True, 'dq': True, 'html': False}] + by('c1', list('$[\'\\'), [{'k': 2, 'sigma': False, 'dq': False, 'html': True}]),
        thorough=[{'k': 1, 'sigma': True}] + by('c1', list(X3_ALPH), [{'k': 2, 'sigma': False}, {'k': 3, 'sigma': False, 'timeout': 3000}]),
        timeout=600, per_path=120, stubs=['urllib.parse.quote -> contract stub'],
        covers=['contrib/toc_renderer.py:TocRenderer.render_heading', 'contrib/mathjax.py:MathJaxRenderer.render_document',
